@@ -16,6 +16,8 @@ import IocProofs.Lemmas.ConfigInit
 import IocProofs.Lemmas.SemConfigure
 import IocProofs.Lemmas.SemAppOptions
 import IocProofs.Lemmas.SemLoaders
+import IocProofs.Lemmas.SemConfDefault
+import IocProofs.Lemmas.SemAppRun
 namespace Ioc.C15
 open Ioc Ioc.Config
 
@@ -484,5 +486,28 @@ theorem C15_code_File_Raw_Loader (path : String) (read : String → Except Strin
   ⟨fileLoader_sem path read, rawLoader_sem raw⟩
 
 end loaders
+
+/-- configure.Default / NewConfigure / the setters, regenerated (interpretation Ioc.SemConfDefault): the default configure has
+    ONE loader, the command-line loader over os.Args, and its binder is the viper binder for yaml ITSELF (no layer between
+    the configure and the binder: what `SetConfig` merges and `Set` writes is what `Get` reads); SetLoaders replaces,
+    AddLoaders appends in the order given, SetBinder replaces the binder -/
+theorem C15_code_configure_Default (w : Sem.CfgObj) (ls : List Go.Val) (b : Go.Val) :
+    Go.run Sem.cdPrims Progs.cfg_Default [] w =
+      some (.ref 0 180, ⟨[.tuple [.str "ArgsLoader", .str "os.Args"]], .tuple [.str "ViperBinder", .str "yaml"]⟩) ∧
+    Go.run Sem.cdPrims Progs.cfg_NewConfigure [] w = some (.ref 0 180, ⟨[], .nil⟩) ∧
+    Go.run Sem.cdPrims Progs.cfg_SetLoaders [.list ls] w = some (.tuple [], { w with loaders := ls }) ∧
+    Go.run Sem.cdPrims Progs.cfg_AddLoaders [.list ls] w = some (.tuple [], { w with loaders := w.loaders ++ ls }) ∧
+    Go.run Sem.cdPrims Progs.cfg_SetBinder [b] w = some (.tuple [], { w with binder := b }) :=
+  ⟨Sem.cfgDefault_sem w, Sem.newConfigure_sem w, (Sem.cfgSetters_sem w ls b).1, (Sem.cfgSetters_sem w ls b).2.1,
+   (Sem.cfgSetters_sem w ls b).2.2⟩
+
+/-- App.Run (regenerated, `C13_code_App_Run`) applies, on EVERY call, the options it is given and then ALL package-level
+    options (`app.Settings`): a configuration source registered through `app.Settings` is a source of every App started in
+    the process, not only of the first -/
+theorem C15_code_Run_applies_global_options (p : Sem.ARP) (ops : List Nat) (w : List Sem.ACall) :
+    Go.run (Sem.arPrims p) Progs.app_Run [Sem.optVals ops] w =
+      (if p.initErr.isSome && !p.fatalReturns then none
+       else some (Sem.encOptE p.runErr, w ++ (ops ++ p.globals).map Sem.ACall.option ++ [.initiate, .run])) :=
+  Sem.appRun_sem p ops w
 
 end Ioc.C15
